@@ -1,7 +1,7 @@
 """C10 — canonical 2^f-torsion bases are genuine bases and reproducible from hints.
 
 Proof stage: SqiProps.C10 (hint round trip for every oracle incl. hints >= 20, minimality, index safety and its
-negation for negative `int` hints, descent-based order/independence (partial), difference point, table facts).
+for every C `int` hint with the guard re-extracted from basis.c, descent-based order/independence (partial), difference point, table facts).
 Tie H: tools/harness/drv_basis.c runs ec_curve_to_basis_2f_to_hint / _from_hint (hooks: forced failing candidates,
 x trace) on curves reached by 2^f-isogeny walks from E0; the Lean driver (`basis.tohint`, `basis.fromhint`) must
 reproduce hints and selected x-coordinates; an independent exact oracle (tools/props/a9_gfp2.py) checks the
@@ -210,45 +210,64 @@ def vlib_hex(z):
     return ("-%x" % -z) if z < 0 else ("%x" % z)
 
 
-# ----------------------------------------------------------------------------------------------- negative hints (finding)
+# ----------------------------------------------------------------------------------------------- negative hints (regression corpus)
+NEG_CORPUS = [(-1, 0), (0, -1), (-1, -1), (-20, 3), (5, -0x7fffffff), (-0x80000000, 0)]
+
+
 def negative_hint_replay(ctx):
-    """C `int` hints: the guard `hint < 20` admits negatives (theorem from_hint_negative_oob). Replay hint = -1 on the
-    real code under ASan."""
+    """C `int` hints: fixed by 6d4be0a (`hint >= 0 && hint < 20`; theorem from_hint_index_safe for every Int). The hint = -1 probes
+    stay: under ASan/UBSan a reverted guard aborts (VIOLATION with this replay); otherwise the selected x must equal the model's
+    (negative hints take the generic branch x = i + (digit_t)hint)."""
     try:
         b = ctx.build_repo("ref", san=True, targets=["sqisign_ec_lvl1", "sqisign_gf_lvl1", "sqisign_precomp_lvl1",
                                                       "sqisign_common_test", "sqisign_intbig_generic", "sqisign_quaternion_generic"])
         exe = ctx.cc_harness(os.path.join(HARNESS, "drv_basis.c"), os.path.join(ctx.tmp, "drv_basis_san"), 1, san=True,
                              build=b, extra=["-I" + HARNESS])
     except vlib.BuildError as e:
-        ctx.obligation("ASan build for the negative-hint replay", False, str(e)[-400:])
+        ctx.obligation("ASan build for the negative-hint corpus", False, str(e)[-400:])
         return
-    for key, ops, tab in ((KEY_NEG_P, ["setcurve 0 0 1 0", "fromhint f8 -1 0"], "NQR_TABLE"),
-                          (KEY_NEG_Q, ["setcurve 0 0 1 0", "fromhint f8 0 -1"], "Z_NQR_TABLE")):
+    dis = []
+    for (h0, h1) in NEG_CORPUS:
+        ops = ["setcurve 0 0 1 0", "fromhint f8 %s %s" % (vlib_hex(h0), vlib_hex(h1))]
         rc, out, err = vlib.run_c([exe], ops)
-        ctx.case(key)
-        asan = "AddressSanitizer" in err
-        ctx.coverage.setdefault("negative_hint_replay", {})[tab] = dict(rc=rc, asan_report=asan,
-                                                                        kind=(re.search(r"AddressSanitizer: ([a-z\-]+)", err) or [None, None])[1])
-        san = asan or "runtime error" in err or (rc != 0 and len(out) < len(ops))
+        ctx.case("neg-hint:%d,%d" % (h0, h1))
+        san = "AddressSanitizer" in err or "runtime error" in err or (rc != 0 and len(out) < len(ops))
+        isq = "ec_curve_to_point_2f_above_montgomery_from_hint" in err or (h0 >= 0 and "not_above" not in err)
+        tab = "Z_NQR_TABLE" if isq else "NQR_TABLE"
+        if san:
+            key = KEY_NEG_Q if isq else KEY_NEG_P
+            ctx.violation(key, "ec_curve_to_basis_2f_from_hint with a negative hint reads %s[hint] out of bounds (guard must be `hint >= 0 && hint < 20`, fix 6d4be0a); hints come from the signature / public key" % tab,
+                          dict(level=1, ops=ops, sanitizer=err[-1200:], theorem="SqiProps.C10.generated_guards_ok / from_hint_index_safe",
+                               how="ASan+UBSan build of the repo + tools/harness/drv_basis.c, feed the ops"))
+            continue
         try:
-            h = ops[1].split()[2:4]
-            mres = ctx.driver(["basis.fromhint 1 %s %s 0 0 1 0" % (h[0], h[1])])[0]
-        except Exception as e:
+            mres = ctx.driver(["basis.fromhint 1 %s %s 0 0 1 0" % (vlib_hex(h0), vlib_hex(h1))])[0]
+        except Exception as e:      # noqa
             mres = "driver-error"
-        if san:
-            ctx.obligation("model reports `oob` exactly where the sanitizer reports the out-of-bounds read (%s[-1])" % tab, mres == "oob", mres)
-        else:
-            ctx.coverage["negative_hint_replay"][tab]["note"] = "no sanitizer report: the code no longer reads out of bounds; from_hint_negative_oob describes the pinned code only"
-        if san:
-            ctx.violation(key, "ec_curve_to_basis_2f_from_hint with a negative hint reads %s[-1] (guard is only `hint < 20`); hints come from the signature / public key" % tab,
-                          dict(level=1, ops=ops, asan=err[-1200:], theorem="SqiProps.C10.from_hint_negative_oob",
-                               how="ASan build of the repo + tools/harness/drv_basis.c, feed the ops"))
+        cres = " ".join(out[1].split()[:4]) if len(out) > 1 else "<none>"
+        if mres != cres:
+            dis.append(dict(hints=(h0, h1), impl=cres[:160], model=mres[:160]))
+    ctx.obligation("correspondence from_hint on negative hints (%d corpus entries, sanitizer build)" % len(NEG_CORPUS), not dis, json.dumps(dis[:2])[:500])
+    if dis and not ctx.violations:
+        ctx.violation("c10:L1:model-correspondence:negative-hints", "model of from_hint on negative hints no longer describes basis.c (no out-of-bounds access observed)",
+                      dict(disagreements=dis, broken_obligations=["correspondence from_hint on negative hints"]), found=False)
 
 
 # ----------------------------------------------------------------------------------------------- failing-input search
 def search(ctx):
     """a proof obligation broke (typically a table fact): look for a concrete input on which the real code violates C10.
     Table entries are targeted with the force hook (candidate i is the first one tried when force = i)."""
+    # guard theorem broken? replay the negative-hint corpus under the sanitizers first
+    before = len(ctx.violations)
+    try:
+        negative_hint_replay(ctx)
+    except Exception:      # noqa
+        pass
+    new = [v for v in ctx.violations[before:] if v["found"]]
+    if new:
+        v = new[0]
+        ctx.violations.remove(v)
+        return v["key"], v["what"], v["replay"]
     for lvl in (1, 3, 5):
         F = Fp2(vlib.LEVELS[lvl]["p"])
         try:
